@@ -1,7 +1,7 @@
 #!/bin/bash
 # Sequentially (re)confirm every staged seed that lacks a complete confirmation record.
 cd /verif
-for d in seeded/staging/C*; do p=$(basename $d); for x in A B; do
+for d in seeded/staging/C*; do p=$(basename $d); for x in A B C D; do [ -f $d/$x.diff ] || continue;
   f=$d/confirm_$x.json
   ok=$(python3 -c "
 import json,sys
